@@ -3,17 +3,20 @@
 Built on the shared end-to-end oracle (tools/props/e2e.py, harness binary `solve`, Coq checker Spec/Valid.v valid_b).
 
 cases      : FAULT ENUMERATION.  For every generated small problem x max_generations N the real solver is first run
-             uninterrupted with the deterministic layout (parallelism null, one outer thread) and every quota poll is labelled
-             with the code site that made it (insertion loop / Iterative::run / decompose search / swap*): that gives the number
-             of polls K and the poll positions of Iterative::run.  Then the solver is re-run for EVERY k in 0..=K+1 with a quota
-             that turns true at its k-th poll and stays true (k = K+1 never fires inside the run), and once more without firing.
+             uninterrupted with the deterministic layout (parallelism null, one outer thread): that gives the number of quota
+             polls K.  Then the solver is re-run for EVERY k in 0..=K+1 with a quota that turns true at its k-th poll and stays
+             true (k = K+1 fires after the last poll of the uninterrupted run), and once more without firing.  EVERY run labels
+             each quota poll with the code site that made it (insertion loop / Iterative::run / decompose search / swap*).
 oracle     : each run returns a document (no error, no panic); the verified checker valid_b (groups A = C02 accounting,
              F = C01 feasibility, R = C03 reproducibility) accepts it - classes that are already recorded findings of C01/C02/C03
              are inherited, not re-reported; nothing is inserted once the quota answered true (insertions <= k - 1, none at k = 0);
+             no generation starts once the quota answered true (generations <= Iterative::run polls that answered false);
              generations run <= max_generations (the unchanged code runs N + 1: known finding `generations-exceed-max-by-one`).
 compare    : the Coq model Evolution.run_evolve (the SAME evolve function the theorems are about, fed with the poll positions
-             of the uninterrupted run) predicts for every k: solution / error, generations run (|telemetry.evolution|),
-             metrics.generations, and for k > K the number of polls; k > K must reproduce the uninterrupted document.
+             of Iterative::run observed in THIS run) predicts: solution / error, generations run (|telemetry.evolution|),
+             metrics.generations and the total number of polls (the run ends at the first Iterative::run poll that sees the quota
+             or the generation limit); insertions <= polls of the insertion loop that answered false.  (Runs are compared with
+             their own poll log because the "deterministic" layout is not perfectly reproducible between runs.)
 """
 import hashlib
 import json
@@ -36,10 +39,10 @@ RULE = ('cases: SIZES[tier] generated pragmatic problems (2-5 jobs in the quick 
         'regenerated) and then k = 0, 1, ..., K, K+1 and "never" are ALL run (exhaustive per problem, see coverage.fault_enumeration). '
         'non-trivial = distinct (problem, k) whose quota fired inside the run (k <= K) and whose document still has a tour.')
 TRUSTED = ['the shared end-to-end rendering (tools/props/e2e.py) and harness op "solve"; its CountingQuota (public Quota trait) answers '
-           'true from the k-th poll on; poll sites come from std::backtrace symbol names (only used to locate the polls of '
-           'Iterative::run in the UNINTERRUPTED run)',
-           'deterministic layout: parallelism = null, one outer rayon thread, repeatable RNG (re-checked on every problem: the '
-           '"never" run must reproduce the labelled run poll for poll and byte for byte)',
+           'true from the k-th poll on; poll sites (which polls are Iterative::run\'s / the insertion loop\'s) come from '
+           'std::backtrace symbol names of the harness build; insertions are counted by the verification hook in insertions.rs',
+           'layout: parallelism = null, one outer rayon thread, repeatable RNG; runs of the same problem are NOT assumed to be '
+           'reproducible (each run is compared with the model on its own poll log)',
            'violation classes of groups A / F / R are named by the C02 / C01 / C03 plugins']
 ASSUMPTIONS = ['the evaluator only returns jobs taken from `required` (ev_ok); goal.notify_failure consumes an unused registry route '
                'whenever it reports the failure as handled (tour_limits.rs) - both by reading, not proved',
@@ -88,11 +91,9 @@ def sites_info(sites):
     return pos[0] - 1, [pos[i + 1] - pos[i] - 1 for i in range(len(pos) - 1)]
 
 
-def _cfg(N, k, seed, sites=False):
-    cfg = {'max_generations': N, 'parallelism': None, 'quota_after_polls': k, 'seed': seed, 'outer_threads': 1, 'trace': 0}
-    if sites:
-        cfg['poll_sites'] = True
-    return cfg
+def _cfg(N, k, seed, sites=True):
+    return {'max_generations': N, 'parallelism': None, 'quota_after_polls': k, 'seed': seed, 'outer_threads': 1, 'trace': 0,
+            'poll_sites': True}
 
 
 def generate(rng, tier, n):
@@ -133,8 +134,7 @@ def generate(rng, tier, n):
             if K > cap:
                 _COV['skipped_over_cap'] += 1
                 continue
-            learn = {'group': group, 'K': K, 'init_polls': info[0], 'gen_polls': info[1], 'evolution': r.get('evolution'),
-                     'generations': r.get('generations'), 'insertions': r.get('insertions'), 'doc': _doc_hash(r['solution'])}
+            learn = {'group': group, 'K': K, 'init_polls': info[0], 'gen_polls': info[1], 'doc': _doc_hash(r['solution'])}
             ks = list(range(0, K + 2)) + [None]
             for k in ks:
                 d = e2e.solve_case({'problem': c['problem'], 'matrices': c['matrices']}, _cfg(N, k, seed))
@@ -154,15 +154,18 @@ def _sol(impl):
 
 
 def _learn(c, impl):
-    """(init_polls, gen_polls, K) from the case (enumeration) or from the run itself (labelled uninterrupted corpus runs)"""
-    l = c.get('c07') or {}
-    if 'K' in l:
-        return l['init_polls'], l['gen_polls'], l['K']
-    if isinstance(impl, dict) and impl.get('poll_sites') and c['config'].get('quota_after_polls') is None:
+    """(polls before the first Iterative::run poll, polls inside each generation, polls) of THIS run, from its own poll labels"""
+    if isinstance(impl, dict) and isinstance(impl.get('poll_sites'), list):
         info = sites_info(impl['poll_sites'])
         if info:
             return info[0], info[1], len(impl['poll_sites'])
     return None
+
+
+def _before(impl, k, label):
+    """number of polls labelled `label` that answered false (1-based index < k; all of them when the quota never fires)"""
+    sites = impl.get('poll_sites') or []
+    return sum(1 for i, x in enumerate(sites) if x == label and (k is None or i + 1 < k))
 
 
 def _nat(n):
@@ -190,36 +193,30 @@ def compare(c, impl, model):
     if e2e.outcome(impl) == 'panic':
         return None                                  # the oracle reports it
     _, (code, gens, metric, evo, polls) = model
-    if code == 9:
-        return None
     k = c['config'].get('quota_after_polls')
-    l = c.get('c07') or {}
-    K = _learn(c, impl)[2]
+    if code == 9:
+        if isinstance(impl.get('poll_sites'), list):
+            return "the last quota poll of the run was not made by Iterative::run (or it made none): %s" % json.dumps(impl['poll_sites'][-6:])
+        return None
     out = e2e.outcome(impl)
     if code == 0 and out != 'solution':
-        return 'model: a solution is returned; implementation: %s' % json.dumps(impl)[:300]
+        return 'model: a solution is returned; implementation: %s' % json.dumps({x: y for x, y in impl.items() if x != 'poll_sites'})[:300]
     if code == 1 and not (out == 'error' and 'cannot find any solution' in str(impl.get('error'))):
         return 'model: error "cannot find any solution"; implementation: %s' % out
     if code not in (0, 1):
         return 'model evaluation ended with code %d' % code
     if out != 'solution':
         return None
+    if impl.get('polls') != polls:
+        return ('polls: the model stops at poll %d (the first Iterative::run poll that sees termination or the quota), the '
+                'implementation made %s polls (k = %s)' % (polls, impl.get('polls'), k))
     if impl.get('evolution') != evo:
-        return 'generations run: model %d, implementation telemetry has %s evolution entries (k = %s, K = %d)' % (evo, impl.get('evolution'), k, K)
+        return 'generations run: model %d, implementation telemetry has %s evolution entries (k = %s)' % (evo, impl.get('evolution'), k)
     if impl.get('generations') != metric:
         return 'metrics.generations: model %d, implementation %s (k = %s)' % (metric, impl.get('generations'), k)
-    if k is None or k > K:
-        if impl.get('polls') != polls or polls != K:
-            return 'quota never fires inside the run: model %d polls, uninterrupted run %d, implementation %s' % (polls, K, impl.get('polls'))
-        if 'doc' in l and _doc_hash(impl['solution']) != l['doc']:
-            return 'quota never fires inside the run (k = %s > K = %d) but the document differs from the uninterrupted one' % (k, K)
-        if 'insertions' in l and impl.get('insertions') != l['insertions']:
-            return 'quota never fires inside the run but %s insertions instead of %s' % (impl.get('insertions'), l['insertions'])
-    else:
-        if impl.get('polls', 0) < max(1, k):
-            return 'the quota fired at poll %d but only %s polls were made' % (k, impl.get('polls'))
-        if 'insertions' in l and impl.get('insertions', 0) > l['insertions']:
-            return 'interrupted run applied %s insertions, the uninterrupted one %s' % (impl.get('insertions'), l['insertions'])
+    ins = impl.get('insertions')
+    if isinstance(ins, int) and ins > _before(impl, k, 'insertion'):
+        return '%d insertions but only %d polls of the insertion loop answered false (k = %s)' % (ins, _before(impl, k, 'insertion'), k)
     return None
 
 
@@ -276,6 +273,10 @@ def oracle(c, impl):
         d = evo - N
         v.append({'class': 'generations-exceed-max-by-one' if d == 1 else 'generations-exceed-max-by-%d' % d,
                   'what': '%d generations were run with max_generations = %d (telemetry evolution entries 0..%d; %s)' % (evo, N, evo - 1, where)})
+    if k is not None and isinstance(evo, int) and isinstance(impl.get('poll_sites'), list) and evo > _before(impl, k, 'iterative'):
+        v.append({'class': 'generation-started-after-quota-reached',
+                  'what': '%d generations were run but Iterative::run saw the quota unreached only %d times (quota true from poll %d on)' % (
+                      evo, _before(impl, k, 'iterative'), k)})
     ins = impl.get('insertions')
     if k is not None and isinstance(ins, int) and ins > max(0, k - 1):
         v.append({'class': 'insertion-after-quota-reached',
